@@ -5,7 +5,10 @@
      &self.value[a..b]       -> Panic when out of bounds
      keys.as_mut().unwrap()  -> Panic when fill_keys failed
    Loops driven by a count read from the buffer recurse on fuel = S (length bs): every iteration reads an entry word at
-   a strictly larger offset, so the loop ends by a failed read before the fuel does.  Executable definitions only. *)
+   a strictly larger offset, so the loop ends by a failed read before the fuel does.
+   The initial offsets and the entry-word strides are NOT written here: they are the expressions the translator reads from
+   iterator.rs into gen/Constants.v (names ITER_...), so a changed offset in the source changes this model and breaks IterProofs.v.
+   Executable definitions only. *)
 From Coq Require Import List NArith ZArith Bool.
 Import ListNotations.
 From JB Require Import Constants Bytes Value Codec Walk.
@@ -33,7 +36,7 @@ Section Folds.
           | Some p =>
               do o <- step s (decode_je w) p;
               match o with
-              | inl s' => arr_fold f (idx + 1) len (joff + 4) (voff + je_len w) s'
+              | inl s' => arr_fold f (idx + 1) len (joff + ITER_ARR_JSTEP) (voff + je_len w) s'
               | inr r => Ok r
               end
           end
@@ -55,7 +58,7 @@ Section Folds.
           | Some k =>
               do o <- step s k;
               match o with
-              | inl s' => keys_fold f (idx + 1) len (joff + 4) (koff + je_len w) s'
+              | inl s' => keys_fold f (idx + 1) len (joff + ITER_KEYS_JSTEP) (koff + je_len w) s'
               | inr r => Ok r
               end
           end
@@ -81,7 +84,7 @@ Section Folds.
                   | Some val =>
                       do o <- step s key (decode_je vw) val;
                       match o with
-                      | inl s' => ent_loop r (koff + je_len kw) (joff + 4) (voff + je_len vw) s'
+                      | inl s' => ent_loop r (koff + je_len kw) (joff + ITER_ENT_JSTEP) (voff + je_len vw) s'
                       | inr x => Ok x
                       end
                   end
@@ -94,19 +97,20 @@ End Folds.
 (* `for (jentry, item) in iterate_array(value, header)` *)
 Definition iterate_array {St R} (bs : list N) (hdr : N) (step : St -> je -> list N -> res (St + R)) (fin : St -> res R)
   (s : St) : res R :=
-  let len := hdr_len hdr in arr_fold bs step fin (S (length bs)) 0 len 4 (4 * len + 4) s.
+  let len := hdr_len hdr in arr_fold bs step fin (S (length bs)) 0 len (ITER_ARR_JOFF len) (ITER_ARR_VOFF len) s.
 (* `for key in iteate_object_keys(value, header)` *)
 Definition iterate_object_keys {St R} (bs : list N) (hdr : N) (step : St -> list N -> res (St + R)) (fin : St -> res R)
   (s : St) : res R :=
-  let len := hdr_len hdr in keys_fold bs step fin (S (length bs)) 0 len 4 (8 * len + 4) s.
+  let len := hdr_len hdr in keys_fold bs step fin (S (length bs)) 0 len (ITER_KEYS_JOFF len) (ITER_KEYS_KOFF len) s.
 (* `for (key, jentry, item) in iterate_object_entries(value, header)`: the first next() reads all key entry words
    (fill_keys); a failed read there leaves keys = None and the unwrap panics *)
 Definition iterate_object_entries {St R} (bs : list N) (hdr : N)
   (step : St -> list N -> je -> list N -> res (St + R)) (fin : St -> res R) (s : St) : res R :=
   let len := hdr_len hdr in
-  match rd_words (S (length bs)) bs 0 len 4 with
+  match rd_words (S (length bs)) bs 0 len (ITER_ENT_JOFF len) with
   | None => Panic
-  | Some kws => ent_loop bs step fin kws (4 + len * 8) (4 + 4 * len) (4 + len * 8 + sum_je_len kws) s
+  | Some kws => ent_loop bs step fin kws (ITER_ENT_KOFF len) (ITER_ENT_JOFF len + ITER_FILL_JSTEP * len)
+                         (ITER_ENT_VOFF len + sum_je_len kws) s
   end.
 
 (* loops that consume every item: the items as a list *)
